@@ -268,6 +268,10 @@ func (g *G) QueryOptions() *message.QueryOptions {
 			}
 		}
 	}
+	if o.PositionalValues != nil && v >= primitive.ProtocolVersion3 && g.chance(5) {
+		// both kinds of values given: "prefer positional values, if provided, and ignore named ones" (QueryOptions.Flags)
+		o.NamedValues = map[string]*primitive.Value{g.Str(): g.Value(), g.Str() + "2": g.Value()}
+	}
 	o.SkipMetadata = g.R.Bool()
 	if g.R.Bool() {
 		o.PageSize = g.I32()
